@@ -3,6 +3,8 @@ package main
 import (
 	"bytes"
 	"fmt"
+	"github.com/cybergarage/go-redis/redis/proto"
+	"io"
 	"os"
 	"os/exec"
 	"regexp"
@@ -100,6 +102,18 @@ func genC06(tier string, seed uint64, emit func(string)) {
 			emit(fmt.Sprintf("bulk %d %d -", n, n-1))
 		}
 	}
+	// thorough: EVERY bulk length up to the 1 MiB bound (2^20 lengths, in 256 ranges)
+	if tier == "thorough" {
+		for lo := 0; lo < 1<<20; lo += 4096 {
+			emit(fmt.Sprintf("bulksweep %d %d", lo, lo+4096))
+		}
+	} else {
+		// quick: every length up to 8192 and a window around every power of two
+		emit("bulksweep 0 8193")
+		for k := 14; k <= 19; k++ {
+			emit(fmt.Sprintf("bulksweep %d %d", 1<<k-40, 1<<k+40))
+		}
+	}
 	// nesting up to the 1 MiB bound of the property (4 bytes per level), with and without an innermost value
 	for _, d := range []int{65536, 131072, 262143} {
 		emit(fmt.Sprintf("deep %d -", d))
@@ -141,7 +155,64 @@ func genC06(tier string, seed uint64, emit func(string)) {
 
 var bigDecl = regexp.MustCompile(`[$*]\+?[0-9]{8,}`)
 
+// synthReader produces "$<n>\r\n" + n times 'a' + "\r\n" without materialising it, in reads of at most `chunk` bytes.
+type synthReader struct {
+	head  []byte
+	n     int
+	tail  []byte
+	chunk int
+}
+
+func (s *synthReader) Read(b []byte) (int, error) {
+	if len(b) > s.chunk {
+		b = b[:s.chunk]
+	}
+	switch {
+	case len(s.head) > 0:
+		k := copy(b, s.head)
+		s.head = s.head[k:]
+		return k, nil
+	case s.n > 0:
+		k := len(b)
+		if k > s.n {
+			k = s.n
+		}
+		for i := 0; i < k; i++ {
+			b[i] = 'a'
+		}
+		s.n -= k
+		return k, nil
+	case len(s.tail) > 0:
+		k := copy(b, s.tail)
+		s.tail = s.tail[k:]
+		return k, nil
+	}
+	return 0, io.EOF
+}
+
 func runC06(toks []string) Result {
+	if toks[0] == "bulksweep" {
+		// "bulksweep <lo> <hi>": every bulk length lo <= n < hi, well-formed, delivered in 64 KiB reads: the parser must
+		// return exactly n payload bytes and then the clean end of the stream (a spin is caught by the case deadline)
+		lo, _ := strconv.Atoi(toks[1])
+		hi, _ := strconv.Atoi(toks[2])
+		for n := lo; n < hi; n++ {
+			rd := &synthReader{head: []byte(fmt.Sprintf("$%d\r\n", n)), n: n, tail: []byte("\r\n"), chunk: 65536}
+			p := proto.NewParserWithReader(rd)
+			msg, err := p.Next()
+			if err != nil || msg == nil {
+				return Result{Obs: fmt.Sprintf("bad@%d", n), Oracle: fmt.Sprintf("fail:a well-formed bulk string of %d bytes was not parsed (%v)", n, err), Tags: []string{"nt", "bulksweep"}}
+			}
+			b, berr := msg.Bytes()
+			if berr != nil || len(b) != n {
+				return Result{Obs: fmt.Sprintf("bad@%d", n), Oracle: fmt.Sprintf("fail:a bulk string of %d bytes came back with %d bytes", n, len(b)), Tags: []string{"nt", "bulksweep"}}
+			}
+			if m2, err2 := p.Next(); err2 != nil || m2 != nil {
+				return Result{Obs: fmt.Sprintf("bad@%d", n), Oracle: fmt.Sprintf("fail:no clean end of stream behind a bulk string of %d bytes", n), Tags: []string{"nt", "bulksweep"}}
+			}
+		}
+		return Result{Obs: "ok", Oracle: "ok", Tags: []string{"nt", "bulksweep"}}
+	}
 	if toks[0] == "bulk" {
 		// "bulk <declared> <present> <tailhex>": a bulk header declaring <declared> bytes, <present> payload bytes 'a', then
 		// <tail> (the terminator, a wrong one, or nothing) - compact form of large inputs up to the 1 MiB bound
